@@ -339,6 +339,13 @@ def check_case(case, tier):
                     failures.append((f"index/config-summary-species{suffix}", f"summary aliases {alias[:6]} (n={summ['num_of_species']}) vs macros {ref_order[1][:6]}"))
                 if int(summ["num_of_elements"]) != len(ref_order[2]) or len(summ["list_of_elements"]) != len(ref_order[2]):
                     failures.append((f"index/config-summary-elements{suffix}", f"summary elements {list(summ['list_of_elements'])} vs macros {ref_order[2]}"))
+                # the per-class counts and lists of the summary against the Python constants module export() rendered next to it
+                cpy = d / "vtexp" / "python" / "pynaunet_model" / "constants.py"
+                cns = {}
+                exec(compile(cpy.read_text(), str(cpy), "exec"), {"__builtins__": {}, "True": True, "False": False}, cns)
+                for skey, nkey, lkey in (("gas_species", "NGAS", "ALL_GAS_SPECIES"), ("ice_species", "NICE", "ALL_ICE_SPECIES"), ("grain_species", "NGRAIN", "ALL_GRAIN_SPECIES")):
+                    if nkey in cns and (int(summ[f"num_of_{skey}"]) != cns[nkey] or (lkey in cns and sorted(summ[f"list_of_{skey}"]) != sorted(cns[lkey]))):
+                        failures.append((f"index/config-summary-{skey.replace('_', '-')}{suffix}", f"[summary] num_of_{skey} = {summ[f'num_of_{skey}']} {list(summ[f'list_of_{skey}'])[:5]} but constants.py has {nkey} = {cns[nkey]} {cns.get(lkey, [])[:5]}"))
             except Exception as e:
                 import traceback
 
